@@ -408,3 +408,110 @@ fn lt_then_proposal() {
     std::mem::forget((res, res2));
     std::mem::forget(pb);
 }
+
+// ===================================================================================== C07 / C08: parking instead of blind progress
+/// process_block of a block whose parent is not in the store: the block is handed to the synchronizer (parked), and the node
+/// neither stores it, nor votes, nor commits, nor changes its round.
+#[kani::proof]
+#[kani::unwind(12)]
+#[kani::stub(std::fmt::format, stub_format)]
+fn pb_missing_parent() {
+    store::reset();
+    let mut env = mk_core(1, &EQ4);
+    any_node_state_at(&mut env, Digest::default(), 7);
+    store::script_strict(&[store::MISS]);
+    let parent = any_digest();
+    vwit::assume(parent != Digest::default());
+    let r: Round = vwit::any_u64();
+    // the QC round is concrete (non-zero): it decides the genesis shortcut of get_parent_block
+    let qr: Round = 6;
+    vwit::assume(r < (1u64 << 62) && qr < r);
+    let b = blk(3, r, parent, qr);
+    let s0 = snap(&env);
+    let res = run_ready(env.core.process_block(&b));
+    assert!(res.is_ok());
+    assert!(env.rx_sync.len() == 1, "C07 block with a missing parent not handed to the synchronizer");
+    let parked = env.rx_sync.try_pop().unwrap();
+    assert!(parked.round == r && parked.qc.hash == b.qc.hash, "C07 another block was parked");
+    std::mem::forget(parked);
+    assert!(env.store.writes() == 0, "C07 block stored before its ancestors were processed");
+    assert!(sent_len() == 0 && env.core.last_voted_round == s0.lv, "C07/C03 voted for a block whose ancestors are unknown");
+    assert!(env.rx_commit.len() == 0, "C05 commit without the 2-chain in the store");
+    assert!(env.core.round == s0.round && env.core.high_qc.round == s0.hq);
+    vwit::cover!(r == 7);
+    std::mem::forget((res, b));
+    std::mem::forget(env);
+}
+/// handle_proposal of a valid leader block with one payload digest: `present` decides whether the batch is in the store.
+/// Missing: exactly one Synchronize(missing, author) to the mempool and one Wait to the payload waiter, no vote, no store
+/// write, no commit (C08). Present: processed like an empty-payload block (voted when the rule allows).
+fn handle_proposal_payload(present: bool) {
+    store::reset();
+    // current round 7, node 1 (does not lead round 8)
+    let mut env = mk_core(1, &EQ4);
+    let b0 = blk(1, 5, Digest::default(), 0);
+    let d0 = b0.digest();
+    env.store.preload(d0.to_vec(), bincode::serialize(&b0).unwrap());
+    let b1 = blk(2, 6, d0.clone(), 5);
+    let d1 = b1.digest();
+    env.store.preload(d1.to_vec(), bincode::serialize(&b1).unwrap());
+    let batch = any_digest();
+    vwit::assume(d0 != d1 && d0 != Digest::default() && d1 != Digest::default() && batch != d0 && batch != d1);
+    if present {
+        env.store.preload(batch.to_vec(), vec![1, 2, 3]);
+        // lookups: payload digest (slot 2), then parent(blk) = b1 (slot 1), parent(b1) = b0 (slot 0)
+        store::script_strict(&[2, 1, 0]);
+    } else {
+        store::script_strict(&[store::MISS]);
+    }
+    env.core.last_committed_round = 4;
+    any_node_state_at(&mut env, d0.clone(), 7);
+    // the leader of round 7 is key(3)
+    let mut b = Block { qc: qc_of(&b1, &[0, 2, 3]), tc: None, author: key(3), round: 7, payload: vec![batch.clone()], signature: Signature::default() };
+    let bd = b.digest();
+    vwit::assume(bd != d0 && bd != d1 && bd != batch);
+    b.signature = sig(3, &bd);
+    let s0 = snap(&env);
+    let res = run_ready(env.core.handle_proposal(&b));
+    assert!(res.is_ok());
+    if !present {
+        assert!(sent_len() == 0 && env.core.last_voted_round == s0.lv, "C08 voted for a block whose batch is not stored locally");
+        assert!(env.store.writes() == 0, "C08 block stored although its payload is missing");
+        assert!(env.rx_commit.len() == 0, "C08 commit triggered by a block whose payload is missing");
+        assert!(env.rx_mempool.len() == 1, "C08 missing batch not requested from the mempool exactly once");
+        match env.rx_mempool.try_pop() {
+            Some(mempool::ConsensusMempoolMessage::Synchronize(missing, target)) => {
+                assert!(missing.len() == 1 && missing[0] == batch && target == key(3), "C08 wrong sync request for the missing batch");
+                std::mem::forget(missing);
+            }
+            _ => assert!(false, "C08 unexpected mempool message"),
+        }
+        assert!(env.pw.len() == 1, "C08 block with a missing batch not parked at the payload waiter");
+        match env.pw.pop() {
+            Some(VerifPWMsg::Wait(missing, blk2)) => {
+                assert!(missing.len() == 1 && missing[0] == batch && blk2.round == 7, "C08 wrong block parked");
+                std::mem::forget((missing, blk2));
+            }
+            _ => assert!(false, "C08 unexpected payload-waiter message"),
+        }
+    } else {
+        // batch available: the block is processed; with last_voted < 7 it is voted
+        assert!(env.store.writes() == 1, "block with an available payload not stored");
+        if s0.lv < 7 {
+            assert!(sent_len() == 1 && sent_tag(0) == TAG_VOTE, "C08 available payload: vote expected");
+        }
+        assert!(env.pw.len() == 1, "payload waiter not told about the committed round"); // Cleanup(5) from the commit path
+    }
+    vwit::cover!(s0.lv < 7);
+    std::mem::forget(res);
+    std::mem::forget((b, b0, b1, d0, d1, batch));
+    std::mem::forget(env);
+}
+#[kani::proof]
+#[kani::unwind(12)]
+#[kani::stub(std::fmt::format, stub_format)]
+fn hp_payload_missing() { handle_proposal_payload(false) }
+#[kani::proof]
+#[kani::unwind(12)]
+#[kani::stub(std::fmt::format, stub_format)]
+fn hp_payload_present() { handle_proposal_payload(true) }
